@@ -144,3 +144,51 @@ Definition tk_filtered_dir : list stm :=
 
 Definition tk_register : list stm :=
   [SIf [SEv (Rd "search_tags"); SIf [SEv (Rd "search_tags"); SIf [SEv (Rd "search_tags")] []] [SEv (Wr "search_tags")]] []; SIf [] []; SEv (Call "expand_path"); SLoop [SEv (Rd "entries"); SIf [SEv (Rd "entries")] [SEv (Call "get_source_id"); SEv (Wr "entries")]]].
+
+Definition tk_rsp_init : list stm :=
+  [SEv (Call "base_init"); SEv (Call "mgr_value"); SEv (Wr "alloc_pointer"); SEv (Call "mgr_dict"); SEv (Wr "data"); SEv (Call "mgr_dict"); SEv (Wr "value_store"); SEv (Call "mgr_dict"); SEv (Wr "tag_store"); SEv (Call "mgr_dict"); SEv (Wr "sequence_id_store"); SEv (Wr "local_store")].
+
+Definition tk_rsp_allocate_next : list stm :=
+  [SEv (Acq "store"); SEv (Call "base_allocate_next"); SExit; SEv (Rel "store")].
+
+Definition tk_rsp_local : list stm :=
+  [SEv (Call "getpid"); SEv (Rd "local_store"); SIf [SEv (Rd "preallocate_fn"); SEv (Rd "bsize"); SEv (Call "new_local_store"); SEv (Wr "local_store")] [SEv (Rd "local_store"); SIf [SRaise "ResultStoreException"] []]; SEv (Rd "local_store"); SExit].
+
+Definition tk_rsp_add : list stm :=
+  [SEv (Call "local_add"); SExit].
+
+Definition tk_base_sync : list stm :=
+  [].
+
+Definition tk_sync_local : list stm :=
+  [SEv (Acq "store"); SEv (Rd "local_data"); SLoop [SIf [] []]; SEv (Rd "local_value_store"); SLoop []; SEv (Rd "local_tag_store"); SLoop []; SEv (Rd "local_sequence_id_store"); SLoop []; SEv (Rel "store")].
+
+Definition tk_result_base_init : list stm :=
+  [SEv (Call "base_init"); SEv (Wr "store"); SEv (Wr "linenumber"); SEv (Wr "section_id")].
+
+Definition tk_result_iter : list stm :=
+  [SEv (Rd "parts"); SLoop [SEv (Call "store_get")]].
+
+Definition tk_minimal_init : list stm :=
+  [SEv (Wr "parts"); SEv (Wr "meta"); SEv (Wr "linenumber"); SEv (Wr "source_id"); SEv (Wr "section_id"); SIf [SEv (Wr "field_names")] [SEv (Wr "field_names")]; SEv (Wr "store")].
+
+Definition tk_minimal_getattr : list stm :=
+  [SIf [SEv (Rd "field_names"); SEv (Rd "field_names"); SIf [SEv (Call "get"); SExit] []] []; SRaise "AttributeError"].
+
+Definition tk_minimal_tag : list stm :=
+  [SEv (Rd "meta"); SIf [SExit] []; SEv (Call "store_get"); SExit].
+
+Definition tk_minimal_sequence_id : list stm :=
+  [SEv (Rd "meta"); SIf [SExit] []; SEv (Call "store_get"); SExit].
+
+Definition tk_register_results_store : list stm :=
+  [SEv (Wr "store")].
+
+Definition tk_result_init : list stm :=
+  [SEv (Wr "store"); SEv (Wr "parts"); SEv (Wr "linenumber"); SEv (Wr "source_id"); SEv (Rd "def_tag"); SEv (Wr "tag"); SEv (Wr "section_id"); SEv (Wr "sequence_id"); SEv (Rd "def_sequence"); SIf [SIf [SRaise "FileSearchException"] []; SEv (Rd "def_sequence_id"); SEv (Wr "sequence_id")] []; SEv (Rd "def_field_info"); SEv (Wr "field_info"); SEv (Rd "def_store_contents"); SIf [SExit] []; SEv (Call "store_result")].
+
+Definition tk_result_metadata : list stm :=
+  [SEv (Rd "tag"); SEv (Rd "sequence_id"); SEv (Call "store_add"); SExit].
+
+Definition tk_result_export : list stm :=
+  [SEv (Rd "parts"); SEv (Rd "metadata_property"); SEv (Rd "linenumber"); SEv (Rd "source_id"); SEv (Rd "section_id"); SEv (Rd "field_info"); SEv (Call "new_minimal"); SExit].
